@@ -20,6 +20,7 @@ def check(repo: Repo, rep, tier):
     no_shared_mutable(repo, rep)
     accumulate(repo, rep)
     reeval_raises(repo, rep)
+    reeval_fresh(repo, rep)
 
 
 def wrapper_frames(repo: Repo, f: Func):
@@ -413,3 +414,38 @@ def reeval_raises(repo: Repo, rep):
             rep.ok("R-REEVAL-RAISES", m, m.node, "DictValue._re_eval: generic check + sub-snapshots")
         else:
             rep.violation("R-REEVAL-RAISES", m, m.node, "DictValue._re_eval skips " + ("the generic check" if not sup else "its sub-snapshots"), construct="dict")
+
+
+def reeval_fresh(repo: Repo, rep):
+    rep.rule(
+        "R-REEVAL-FRESH",
+        "every call of _re_eval(X, context) hands over the freshly evaluated argument: X derives from the caller's own `value`/`obj` parameter (or an element "
+        "of it), never from stored state (self._old_value holds already-wrapped values: handing it down makes an Unmanaged wrapper point at itself or keeps stale values)",
+    )
+    n = 0
+    for f in repo.pkg_funcs():
+        if f.module.rel.startswith(("testing/", "@")):
+            continue
+        for c in body_nodes(f.node):
+            if not (isinstance(c, ast.Call) and isinstance(c.func, ast.Attribute) and c.func.attr == "_re_eval" and c.args):
+                continue
+            n += 1
+            a0 = c.args[0]
+            params = set(f.params[1:]) if f.cls is not None else set(f.params)
+            g = f
+            while g.parent is not None:
+                g = g.parent
+                params |= set(g.params[1:] if g.cls is not None else g.params)
+            names = {x.id for x in ast.walk(a0) if isinstance(x, ast.Name)}
+            stored = any(isinstance(x, ast.Attribute) and x.attr in ("_old_value", "_new_value") for x in ast.walk(a0))
+            if stored or not (names & params):
+                rep.violation(
+                    "R-REEVAL-FRESH",
+                    f,
+                    c,
+                    f"{f.qualname} re-evaluates a sub-snapshot with `{short(a0, 40)}` (stored, already wrapped state) instead of the freshly evaluated argument: e.g. `for i in range(2): assert i == snapshot({{'a': Is(i)}})['a']` makes the Unmanaged wrapper refer to itself (RecursionError)",
+                    construct=norm(a0),
+                )
+            else:
+                rep.ok("R-REEVAL-FRESH", f, c, f"_re_eval({short(a0, 30)}, ...) from the fresh argument")
+    rep.floor("R-REEVAL-FRESH", "_re_eval call sites", n, 4)
